@@ -157,7 +157,7 @@ def build_chain_contract(chk: Check, search) -> None:
         self_rec = Rec("Builder", {
             "config": Rec("Config", {"use_helicity_couplings": couplings}),
             "naming": Rec("Naming", {}),
-            "__ingredients": Rec("Ingredients", {"components": comps}),
+            "__ingredients": Rec("Ingredients", {"components": comps}, getattr(H, "_HelicityModelIngredients", None)),  # helper methods a refactoring adds are interpreted
         }, real_class=H.HelicityAmplitudeBuilder)  # private helper methods of the real class are interpreted, not assumed
         ex.natives["Builder._formulate_partial_decay"] = lambda e, st, a, kw, p=p: iter([(st, SV(p[a[2]], "real"))])
         ex.natives["Builder.__generate_amplitude_coefficient"] = lambda e, st, a, kw: iter([(st, SV(coef, "real"))])
